@@ -109,6 +109,11 @@ Fixpoint scan (d : ascii) (s : str) : str * str :=
                else let (t, p) := scan d s' in (c :: t, p)
   end.
 
+(* after "src_string = p + 1": if (include_empty && '\0' == *src_string) append "" —
+   the delimiter just consumed was the last character, one more (empty) field follows *)
+Definition trailing (include_empty : bool) (rest : str) (a : argv) : argv :=
+  if include_empty then match rest with [] => snd (argv_append a []) | _ :: _ => a end else a.
+
 (* the outer while (src_string && *src_string) loop; one unit of fuel per iteration *)
 Fixpoint split_loop (fuel : nat) (include_empty : bool) (d : ascii) (src : str) (a : argv) : argv :=
   match fuel with
@@ -121,11 +126,12 @@ Fixpoint split_loop (fuel : nat) (include_empty : bool) (d : ascii) (src : str) 
           match tok, p with
           | [], _ =>        (* src_string == p: zero length argument; src_string = p + 1 *)
               split_loop f include_empty d (tl p)
-                         (if include_empty then snd (argv_append a []) else a)
+                         (trailing include_empty (tl p)
+                                   (if include_empty then snd (argv_append a []) else a))
           | _ :: _, [] =>   (* '\0' == *p: tail argument; src_string = p; continue *)
               split_loop f include_empty d [] (snd (argv_append a src))
           | _ :: _, _ :: p1 => (* short or long argument (same result); src_string = p + 1 *)
-              split_loop f include_empty d p1 (snd (argv_append a tok))
+              split_loop f include_empty d p1 (trailing include_empty p1 (snd (argv_append a tok)))
           end
       end
   end.
